@@ -123,3 +123,18 @@ def is_sorted(rows, order):
         if cmp(rows[i], rows[i + 1]) > 0:
             return False
     return True
+
+
+def is_conflict(r):
+    """A DELETE that lost the race against a background compaction reports this error (and has no
+    effect); it is expected to succeed when retried."""
+    return (not r.get("ok")) and "replaced by a concurrent compaction" in (r.get("err") or "")
+
+
+def sql_retry(rl, sql, tries=4):
+    r = rl.sql(sql)
+    n = 0
+    while is_conflict(r) and n < tries:
+        n += 1
+        r = rl.sql(sql)
+    return r
